@@ -754,6 +754,71 @@ func (c *Ctx) escapeCorners() {
 		c.parseLine('O', `{"`+body+`":1}`, "-")
 		c.parseLine('O', `{"k":"`+body+`"}`, "-")
 	}
+	// Lone surrogate escapes are RFC 8259-valid text that denotes no Unicode string; the strict decoder of the model leaves
+	// them out of C03's domain.  What every reference decoder agrees on is that the characters AROUND such an escape are
+	// kept; Go's reference decoder (and this library, since F3) replaces the escape itself by U+FFFD.  Implementation-side
+	// monitor: grammar-valid bodies made of \uXXXX escapes and plain characters decode to refUnescape(body).
+	hi, lo, bmp := []string{`\ud800`, `\ud83d`, `\uDBFF`}, []string{`\udc00`, `\ude00`, `\uDFFF`}, []string{`\u0041`, `\u00e9`, `\uFFFD`, `\u0000`, `\u005C`, `\u0022`}
+	var units []string
+	units = append(units, hi...)
+	units = append(units, lo...)
+	units = append(units, bmp...)
+	units = append(units, "x", `\n`, `\\`, "é")
+	check := func(body string) {
+		want, ok := refUnescape(body)
+		if !ok {
+			return
+		}
+		for _, doc := range []struct {
+			kind byte
+			text string
+			get  func(any) (string, bool)
+		}{
+			{'L', `["` + body + `"]`, func(v any) (string, bool) { l := v.(at.List); return l.GetString(0), l.Count() == 1 }},
+			{'L', `[1,"` + body + `","t"]`, func(v any) (string, bool) { l := v.(at.List); return l.GetString(1), l.Count() == 3 && l.GetString(2) == "t" }},
+			{'O', `{"k":"` + body + `"}`, func(v any) (string, bool) { o := v.(at.Object); return o.GetString("k"), o.Count() == 1 }},
+			{'O', `{"` + body + `":"v"}`, func(v any) (string, bool) {
+				o := v.(at.Object)
+				ks := o.Keys().StringSlice()
+				if len(ks) != 1 {
+					return "", false
+				}
+				return ks[0], o.GetString(ks[0]) == "v"
+			}},
+		} {
+			func() {
+				defer func() {
+					if r := recover(); r != nil {
+						c.M.Alarm("C03", fmt.Sprintf("escapes around a lone surrogate: %s panics: %v", doc.text, r))
+					}
+				}()
+				var v any
+				var err error
+				if doc.kind == 'L' {
+					v, err = at.ParseList(doc.text)
+				} else {
+					v, err = at.ParseObject(doc.text)
+				}
+				if err != nil {
+					c.M.Alarm("C03", fmt.Sprintf("escapes around a lone surrogate: %s is RFC 8259-valid text and is rejected: %v", doc.text, err))
+					return
+				}
+				got, shape := doc.get(v)
+				if !shape || got != want {
+					c.M.Alarm("C03", fmt.Sprintf("escapes around a lone surrogate: %s reads the string as %q, a reference decoder (U+FFFD for an unpaired surrogate, everything else kept) reads %q", doc.text, got, want))
+				}
+			}()
+		}
+		c.St.Eval("lone:"+body, true)
+	}
+	for _, a := range units {
+		for _, b := range units {
+			check(a + b)
+			for _, d := range units {
+				check(a + b + d)
+			}
+		}
+	}
 	for _, doc := range []string{`{"a":[1]"b":2}`, `{"a":{}"b":2}`, `{"a":[1] "b":2}`, `{"a":[1]x}`, `{"a":[1],}`, `{"a":[1]}}`, `[[1]2]`, `[{}"x"]`, `{"a":[1]:}`} {
 		c.parseLine("LO"[map[bool]int{true: 0, false: 1}[doc[0] == '[']], doc, "-")
 	}
@@ -1577,4 +1642,82 @@ func runSTD(c *Ctx) {
 		}
 		decodeLine(b)
 	}
+}
+
+
+// refUnescape decodes the body of a JSON string literal (no surrounding quotes) the way Go's reference decoder does:
+// the RFC 8259 escapes, surrogate pairs combined, an unpaired surrogate replaced by U+FFFD.  ok is false if the body is
+// not grammar-valid (unknown escape, truncated \u, raw control character or quote).
+func refUnescape(body string) (string, bool) {
+	var sb strings.Builder
+	hex4 := func(s string) (rune, bool) {
+		if len(s) < 4 {
+			return 0, false
+		}
+		var v rune
+		for i := 0; i < 4; i++ {
+			c := s[i]
+			switch {
+			case c >= '0' && c <= '9':
+				v = v<<4 | rune(c-'0')
+			case c >= 'a' && c <= 'f':
+				v = v<<4 | rune(c-'a'+10)
+			case c >= 'A' && c <= 'F':
+				v = v<<4 | rune(c-'A'+10)
+			default:
+				return 0, false
+			}
+		}
+		return v, true
+	}
+	for i := 0; i < len(body); {
+		ch := body[i]
+		if ch == '"' || ch < 0x20 {
+			return "", false
+		}
+		if ch != '\\' {
+			sb.WriteByte(ch)
+			i++
+			continue
+		}
+		if i+1 >= len(body) {
+			return "", false
+		}
+		switch body[i+1] {
+		case '"', '\\', '/':
+			sb.WriteByte(body[i+1])
+		case 'b':
+			sb.WriteByte(8)
+		case 'f':
+			sb.WriteByte(12)
+		case 'n':
+			sb.WriteByte(10)
+		case 'r':
+			sb.WriteByte(13)
+		case 't':
+			sb.WriteByte(9)
+		case 'u':
+			r1, ok := hex4(body[i+2:])
+			if !ok {
+				return "", false
+			}
+			i += 6
+			if r1 >= 0xD800 && r1 < 0xDC00 && strings.HasPrefix(body[i:], "\\u") {
+				if r2, ok := hex4(body[i+2:]); ok && r2 >= 0xDC00 && r2 < 0xE000 {
+					sb.WriteRune(0x10000 + (r1-0xD800)<<10 + (r2 - 0xDC00))
+					i += 6
+					continue
+				}
+			}
+			if r1 >= 0xD800 && r1 < 0xE000 {
+				r1 = 0xFFFD
+			}
+			sb.WriteRune(r1)
+			continue
+		default:
+			return "", false
+		}
+		i += 2
+	}
+	return sb.String(), true
 }
